@@ -262,6 +262,10 @@ inductive Seg where
   | batch (rs : List Rec)
   | batchNoDump (rs : List Rec)
   | restart
+  /-- the background refresh (`periodicallyUpdateTree`) found a CHANGED policies file and swapped in a tree built
+      from the known endpoints only: the learnt tree is lost, the aggregation and the file are untouched.
+      (A tick that finds the file unchanged does nothing at all — it is not even a segment.) -/
+  | treeReset
 deriving Repr
 
 def runSegs {τ : Type} (N : Normaliser τ) (T0 : τ) : St τ → List Seg → St τ
@@ -269,6 +273,7 @@ def runSegs {τ : Type} (N : Normaliser τ) (T0 : τ) : St τ → List Seg → S
   | s, Seg.batch rs :: rest => runSegs N T0 (stepS N s rs) rest
   | s, Seg.batchNoDump rs :: rest => runSegs N T0 (stepNoDump N s rs) rest
   | s, Seg.restart :: rest => runSegs N T0 { tree := T0, agg := restore s.file, file := s.file } rest
+  | s, Seg.treeReset :: rest => runSegs N T0 { s with tree := T0 } rest
 
 /-- Restart-free run over a list of batches. -/
 def runBatches {τ : Type} (N : Normaliser τ) : τ × Agg → List (List Rec) → τ × Agg
